@@ -80,6 +80,31 @@ def run(ctx, chk):
                 chk.ob(not oks, "C09/any/unsupported-accepted/%d/%s" % (t, sorted(bad)),
                        "unsupported type %d [%s] yields a message (%s) instead of an error" % (t, cfg, sorted(bad)),
                        sample={"type": t, "outcome": "Err at every length", "config": cfg})
+    # the kind a decoded message reports about itself (`AisMessageType::name`): one constant per
+    # message type, no two types sharing a name (a decoded type 13 must not call itself type 7)
+    from ..interp import Interp, St
+    from ..values import VStr, VRef, VOpaque
+    from .. import xform
+    for cfg in cfgs:
+        f = ctx.facts(cfg)
+        names = {}
+        for b in sorted(f.bodies.values(), key=lambda b: b["def"]):
+            if not ((b.get("impl_trait") or "").endswith("AisMessageType") and b["def"].endswith("::name")):
+                continue
+            I2 = Interp(f, xform.EXT)
+            st0 = St()
+            outs = I2.exec_fn(st0, b, [VRef(I2.new_cell(st0, VOpaque("self")), ())])
+            vals = set()
+            for st, rv in outs:
+                vals.add(rv.term[1] if isinstance(rv, VStr) and isinstance(rv.term, tuple) and rv.term[0] == "cstr" else repr(rv))
+            ty = (b.get("impl_self") or b["def"]).split("<")[0].rsplit("::", 1)[-1]
+            chk.ob(len(vals) == 1 and all(isinstance(v, (bytes, str)) for v in vals), "C09/name/not-constant/%s" % ty, "%s::name() [%s] is not one constant string: %r" % (ty, cfg, sorted(map(repr, vals))))
+            for v in vals:
+                names.setdefault(v, []).append(ty)
+        dup = {k: v for k, v in names.items() if len(v) > 1}
+        chk.ob(not dup, "C09/name/shared/%s" % (sorted(sum(dup.values(), [])),), "message kinds that report the same name() [%s]: %r" % (cfg, dup),
+               sample={"message_names": len(names)})
+        chk.ob(len(names) >= 20, "C09/name/floor/%d" % len(names), "only %d AisMessageType::name impls found [%s]" % (len(names), cfg))
     chk.cov["decode_paths_linked"] = sum(decode_linkage(ctx, chk, cfg) for cfg in cfgs)
     chk.cov["configs"] = cfgs
     chk.cov["programs"] = len(cfgs)
